@@ -770,7 +770,7 @@ pub fn beat(worker: usize) {
 fn start_watchdog(prop: &'static str, seed: u64, tier: Tier) {
     WATCHDOG.get_or_init(|| {
         // no single case of any check takes more than about a minute (quick) / five minutes (thorough)
-        let limit: u64 = std::env::var("VERIF_STALL_LIMIT").ok().and_then(|v| v.parse().ok()).unwrap_or(tier.pick(300, 1200));
+        let limit: u64 = std::env::var("VERIF_STALL_LIMIT").ok().and_then(|v| v.parse().ok()).unwrap_or(tier.pick(900, 2400));
         std::thread::spawn(move || {
             let mut last = [0u64; MAX_WORKERS];
             let mut since = [Instant::now(); MAX_WORKERS];
